@@ -87,7 +87,7 @@ impl Property for C13 {
         "proptest single cases: sender (account with exact authorisation / none / authorisation for another payload / another account's authorisation; probe contract calling as itself / naming an account), destination chain and address strings (empty, ASCII up to 300 bytes, multi-byte UTF-8, invalid UTF-8), payload lengths around the Keccak rate (0,1,31,32,33,135,136,137,271..273,...) up to 64 KiB with case-seeded content. Oracle: success iff the sender authorised (or is the calling contract); then exactly one event by the gateway with topics (contract_called, sender, chain, address, own Keccak-256(payload)) and data = payload, and the gateway's own ledger entries unchanged; otherwise failure, no event, full snapshot equality. non-trivial = every case (the suite has one sample); distinct by Debug hash of the whole case"
     }
     fn cases(&self, tier: Tier) -> u64 {
-        tier.pick(6000, 60000)
+        tier.pick(20000, 200000)
     }
     fn strategy(&self, tier: Tier) -> BoxedStrategy<Case> {
         (
